@@ -649,14 +649,22 @@ type simFlushWriter struct{ *SimWriter }
 
 func (simFlushWriter) Flush() {}
 
+// a writer that also implements io.StringWriter (most real destinations do: *os.File,
+// *bufio.Writer, http.ResponseWriter implementations)
+type simStringWriter struct{ *SimWriter }
+
+func (s simStringWriter) WriteString(x string) (int, error) { return s.SimWriter.Write([]byte(x)) }
+
 // CallerWriter wraps sw in the writer kind this world hands to the engine
-// (0: io.Writer only, 1: with Flush() error, 2: with Flush()).
+// (0: io.Writer only, 1: with Flush() error, 2: with Flush(), 3: with WriteString).
 func (w *World) CallerWriter(sw *SimWriter) io.Writer {
 	switch w.WriterKind {
 	case 1:
 		return simFlushErrWriter{sw}
 	case 2:
 		return simFlushWriter{sw}
+	case 3:
+		return simStringWriter{sw}
 	}
 	return sw
 }
